@@ -1783,6 +1783,130 @@ impl<'i, R: RuleType> ParserState<'i, R> {
 }
 
 /// Helper function used only in case stack operations (PUSH/POP) are used in grammar.
+/// Read-only view of the parser state for the verification harness (`/verif`).
+#[cfg(pest_parser_pest_verif)]
+impl<'i, R: RuleType> ParserState<'i, R> {
+    /// Canonical one-line rendering of every field of the state.
+    pub fn verif_snapshot(&self) -> String {
+        use core::fmt::Write;
+        fn hex(s: &str) -> String {
+            if s.is_empty() {
+                return String::from("-");
+            }
+            let mut o = String::new();
+            for b in s.bytes() {
+                let _ = write!(o, "{:02x}", b);
+            }
+            o
+        }
+        let mut o = String::new();
+        let _ = write!(o, "pos={} q=[", self.position.pos());
+        for (i, t) in self.queue.iter().enumerate() {
+            if i > 0 {
+                o.push(' ');
+            }
+            match t {
+                QueueableToken::Start {
+                    end_token_index,
+                    input_pos,
+                } => {
+                    let _ = write!(o, "S{}@{}", end_token_index, input_pos);
+                }
+                QueueableToken::End {
+                    start_token_index,
+                    rule,
+                    tag,
+                    input_pos,
+                } => {
+                    let _ = write!(
+                        o,
+                        "E{}:{:?}:{}@{}",
+                        start_token_index,
+                        rule,
+                        tag.map(hex).unwrap_or_else(|| String::from("_")),
+                        input_pos
+                    );
+                }
+            }
+        }
+        o.push_str("] st=[");
+        let n = self.stack.len();
+        for (i, e) in self.stack[0..n].iter().enumerate() {
+            if i > 0 {
+                o.push(' ');
+            }
+            o.push_str(&hex(e.as_borrowed_or_rc().as_str()));
+        }
+        let _ = write!(
+            o,
+            "]/{} la={} at={} apos={} pa={:?} na={:?} calls={}",
+            self.stack.verif_snapshot_depth(),
+            match self.lookahead {
+                Lookahead::Positive => "P",
+                Lookahead::Negative => "G",
+                Lookahead::None => "N",
+            },
+            match self.atomicity {
+                Atomicity::Atomic => "A",
+                Atomicity::CompoundAtomic => "C",
+                Atomicity::NonAtomic => "N",
+            },
+            self.attempt_pos,
+            self.pos_attempts,
+            self.neg_attempts,
+            self.call_tracker
+                .current_call_limit
+                .map(|(c, _)| c as isize)
+                .unwrap_or(-1),
+        );
+        let pa = &self.parse_attempts;
+        let _ = write!(o, " det={} max={} cs=[", pa.enabled as u8, pa.max_position);
+        for (i, c) in pa.call_stacks.iter().enumerate() {
+            if i > 0 {
+                o.push(' ');
+            }
+            match &c.deepest {
+                ParseAttempt::Rule(r) => {
+                    let _ = write!(o, "{:?}", r);
+                }
+                ParseAttempt::Token => o.push('T'),
+            }
+            match &c.parent {
+                Some(r) => {
+                    let _ = write!(o, "<{:?}", r);
+                }
+                None => {}
+            }
+        }
+        o.push_str("] exp=[");
+        let tok = |t: &ParsingToken| -> String {
+            match t {
+                ParsingToken::Sensitive { token } => alloc::format!("s{}", hex(token)),
+                ParsingToken::Insensitive { token } => alloc::format!("i{}", hex(token)),
+                ParsingToken::Range { start, end } => {
+                    alloc::format!("r{:x}-{:x}", *start as u32, *end as u32)
+                }
+                ParsingToken::BuiltInRule => String::from("b"),
+            }
+        };
+        for (i, t) in pa.expected_tokens.iter().enumerate() {
+            if i > 0 {
+                o.push(' ');
+            }
+            o.push_str(&tok(t));
+        }
+        o.push_str("] unexp=[");
+        for (i, t) in pa.unexpected_tokens.iter().enumerate() {
+            if i > 0 {
+                o.push(' ');
+            }
+            o.push_str(&tok(t));
+        }
+        o.push(']');
+        o
+    }
+}
+
 fn constrain_idxs(start: i32, end: Option<i32>, len: usize) -> Option<Range<usize>> {
     let start_norm = normalize_index(start, len)?;
     let end_norm = end.map_or(Some(len), |e| normalize_index(e, len))?;
